@@ -38,7 +38,34 @@ def bearings(tier, seed):
     return uniq([x for x in b if 0.0 <= x < 360.0])
 
 
+INT_FORMS = [('float', float), ('int', int), ('npi64', np.int64), ('npi32', np.int32), ('npi16', np.int16), ('np64', np.float64)]
+INT_DELTAS = [(dx, dy) for dx in (-2, -1, 0, 1, 2) for dy in (-2, -1, 0, 1, 2) if (dx, dy) != (0, 0)] + [(0, 100), (100, 0), (0, -7), (-7, 0), (300, -400)]
+
+
+def ev_intgrid(rec, case):
+    """joins between points of a whole-number grid (incl. lines exactly along the axes), the coordinates held as Python ints /
+    numpy integers / floats: same distance and bearing in every form, bearing clockwise from north in [0, 360)"""
+    for e1, n1 in ((0, 0), (500, 600), (-3, 7)):
+        for dx, dy in INT_DELTAS:
+            exp_d, exp_b = math.hypot(dx, dy), math.degrees(math.atan2(dx, dy)) % 360.0
+            for nm, T in INT_FORMS:
+                one = {'intgrid': [e1, n1, dx, dy], 'form': nm}
+                for what, f, args in (('joins', joins, (T(e1), T(n1), T(e1 + dx), T(n1 + dy))), ('rect2polar', rect2polar, (T(dx), T(dy)))):
+                    st, r = rec.call(f, *args)
+                    rec.nontriv(('intgrid', e1, n1, dx, dy, nm, what))
+                    ok = st == 'ok' and abs(float(r[0]) - exp_d) <= 1e-12 * exp_d and 0.0 <= float(r[1]) < 360.0 and \
+                        abs((float(r[1]) - exp_b + 180.0) % 360.0 - 180.0) <= 1e-9
+                    if not ok:
+                        rec.fail('%s between whole-number coordinates held as %s is not the distance and the bearing in [0, 360)' % (what, nm),
+                                 site='survey:%s:number-form' % what, observed=r if st != 'ok' else [float(r[0]), float(r[1])], expected=[exp_d, exp_b],
+                                 case=one, coords={'form': nm, 'dx': dx, 'dy': dy})
+                        rec.outcome('intgrid-bad')
+                    else:
+                        rec.outcome('intgrid-ok')
+
+
 def gen_plane(tier, seed):
+    yield {'intgrid': True}
     bs = bearings(tier, seed)
     for o in ORIGINS:
         for L in LENGTHS:
@@ -46,6 +73,10 @@ def gen_plane(tier, seed):
 
 
 def ev_plane(case, rec):
+    if case.get('intgrid'):
+        ev_intgrid(rec, case)
+        rec.sample(case)
+        return
     e1, n1 = case['origin']
     L = case['len']
     for b in case['brgs']:
@@ -272,7 +303,7 @@ def ev_atm1(case, rec, shared):
                              observed=got, expected=expg, tol=1e-8, case=one, coords=dict(co, co2=x))
                 rec.outcome('atm-ok')
         # psychrometer form (wet-bulb temperature instead of humidity), incl. a wet bulb of exactly 0 C
-        for wet in (t, t - 2.0, 0.0):
+        for wet in (t, t - 2.0, t - 5.0, t - 10.0, 0.0):
             if wet > t or wet < t - 12.0:
                 continue
             st, c = rec.call(first_vel_corrn, 1000.0, par, t, p, None, wet)
@@ -280,6 +311,24 @@ def ev_atm1(case, rec, shared):
                 rec.fail('first velocity correction is not defined for a valid atmosphere given by a wet-bulb temperature',
                          site='survey:first_vel_corrn:wetbulb', observed=c, case=dict(case, pres=p, wet=wet), coords={'temp': t, 'wet': wet})
                 rec.outcome('raise-wet')
+                continue
+            # one atmosphere, two descriptions: the psychrometer reading (t, t') fixes the vapour pressure
+            # e = E_w(t') - 0.000662 p (t - t')  (saturation pressure AT THE WET BULB, Rueger 5.27 / 5.30, the formulas the function
+            # documents); the same atmosphere described by the relative humidity 100 e / E_w(t) has the same correction
+            def E_w(tt):
+                return (1.0007 + 3.46e-6 * p) * 6.1121 * math.exp(17.502 * tt / (240.94 + tt))
+            e_w = E_w(wet) - 0.000662 * p * (t - wet)
+            rh = 100.0 * e_w / E_w(t)
+            if 0.0 <= rh <= 100.0:
+                st2, c2 = rec.call(first_vel_corrn, 1000.0, par, t, p, rh)
+                rec.nontriv(('wet', repr(par), t, p, wet))
+                if st2 != 'ok' or not abs(c - c2) <= 2e-5:
+                    rec.fail('the correction for a psychrometer reading (dry %.1f C, wet %.1f C) differs from that of the same atmosphere described '
+                             'by its relative humidity (%.3f %%) by more than 0.02 ppm' % (t, wet, rh), site='survey:first_vel_corrn:wetbulb-value',
+                             observed=c, expected=c2, tol=2e-5, case=dict(case, pres=p, wet=wet), coords={'temp': t, 'wet': wet, 'pres': p})
+                    rec.outcome('wet-bad')
+                else:
+                    rec.outcome('wet-ok')
     if 'par0' in shared and shared['par'].tobytes() != shared['par0']:
         rec.fail('first_vel_corrn modified the parameter array supplied by the caller', site='survey:first_vel_corrn:argument',
                  observed=shared['par'], case=case)
